@@ -210,3 +210,12 @@ def run(res, facts, tier):
     _run_c01_prev_copyns(res, facts, tier)
     from . import c01_copyns
     c01_copyns.run_rule(res, facts, tier)
+
+
+_run_c01_prev_copyattr = run
+
+
+def run(res, facts, tier):
+    _run_c01_prev_copyattr(res, facts, tier)
+    from . import c01_copyns
+    c01_copyns.run_attr_rule(res, facts, tier)
